@@ -231,3 +231,95 @@ def kill_points(item):
             except Exception:
                 out.append(dict(base, error=traceback.format_exc()[-900:]))
     return out
+
+
+def pathlib_views(item):
+    """C16: Path.glob == glob.glob(root_dir=...), rglob, match <=> rglob membership, errors, no duplicates."""
+    tname, spec, cases = item
+    out = []
+    cyclic = trees.is_cyclic(spec)
+    cwd0 = os.getcwd()
+    with trees.Tree(spec) as t:
+        ents = t.entries()
+        for txt, flags in cases:
+            follow = bool(flags & PL.L)
+            if cyclic and (follow or flags & PL.GL):
+                continue
+            base = dict(tree=tname, pattern=txt, flags=flags, fl=LC.flagnames(flags))
+            bad = []
+            try:
+                root = PL.Path(t.root)
+                for sub in ('', 'd'):
+                    r = root / sub if sub else root
+                    if not r.is_dir():
+                        continue
+                    got = with_alarm(lambda: [str(x) for x in r.glob(txt, flags=flags)])
+                    gflags = (flags & ~(PL.SD)) | G.U | W._NOABSOLUTE | G._PATHLIB | (G.SD if flags & PL.SD else 0)
+                    want = [str(r.joinpath(x)) for x in G.glob(txt, flags=(flags & PL.FLAG_MASK) | G.U | W._NOABSOLUTE | G._PATHLIB | (G.SD if flags & PL.SD else 0), root_dir=str(r))]
+                    if got != want:
+                        bad.append(('Path.glob-differs-from-glob.glob(root_dir=path)', f'{sub or "."}: {got[:5]} vs {want[:5]}'))
+                    if not flags & PL.Q and len(set(got)) != len(got):
+                        bad.append(('pathlib-yields-one-file-twice', str(sorted(x for x in got if got.count(x) > 1)[:3])))
+                    rg = [str(x) for x in r.rglob(txt, flags=flags)]
+                    want_rg = [str(x) for x in r.glob(txt, flags=flags | W._EXTMATCHBASE)]
+                    if rg != want_rg:
+                        bad.append(('rglob-is-not-glob-with-implicit-recursive-segment', f'{rg[:5]} vs {want_rg[:5]}'))
+                    # user-supplied FORCEWIN / FORCEUNIX are ignored
+                    if [str(x) for x in r.glob(txt, flags=flags | G.W)] != got or [str(x) for x in r.glob(txt, flags=flags | G.U)] != got:
+                        bad.append(('user-FORCEWIN/FORCEUNIX-not-ignored', ''))
+                # match(REALPATH) <=> rglob membership, for relative paths below cwd
+                os.chdir(t.root)
+                try:
+                    here = PL.Path('.')
+                    rg = {str(x) for x in with_alarm(lambda: list(here.rglob(txt, flags=flags)))}
+                    cands = set(ents) | rg
+                    m = set()
+                    for c in sorted(cands):
+                        if PL.Path(c).match(txt, flags=flags | PL.P):
+                            m.add(str(PL.Path(c)))
+                    for x in sorted(rg - m)[:3]:
+                        bad.append(('rglob-yields-a-path-that-match(REALPATH)-rejects', x))
+                    for x in sorted(m - rg)[:3]:
+                        bad.append(('match(REALPATH)-accepts-a-path-that-rglob-does-not-yield', x))
+                    # globmatch / full_match == glob.globmatch on the string (trailing separator for directories)
+                    for c in sorted(ents)[:12]:
+                        p = PL.Path(c)
+                        s = str(p) + ('/' if p.is_dir() else '')
+                        w = G.globmatch(s, txt, flags=(flags & PL.FLAG_MASK) | G.U)
+                        if p.globmatch(txt, flags=flags) != w or p.full_match(txt, flags=flags) != w:
+                            bad.append(('Path.globmatch/full_match-differs-from-glob.globmatch(str+sep)', c))
+                        pp = PL.PurePosixPath(c)
+                        if pp.globmatch(txt, flags=flags & ~PL.P) != G.globmatch(str(pp), txt, flags=(flags & PL.FLAG_MASK & ~PL.P) | G.U):
+                            bad.append(('PurePosixPath.globmatch-differs-from-glob.globmatch(FORCEUNIX)', c))
+                        pw = PL.PureWindowsPath(c)
+                        if pw.globmatch(txt, flags=flags & ~PL.P) != G.globmatch(str(pw), txt, flags=(flags & PL.FLAG_MASK & ~PL.P) | G.W):
+                            bad.append(('PureWindowsPath.globmatch-differs-from-glob.globmatch(FORCEWIN)', c))
+                finally:
+                    os.chdir(cwd0)
+                out.append(dict(base, bad=bad[:8], n=len(rg)))
+            except CaseTimeout:
+                os.chdir(cwd0)
+                out.append(dict(base, bad=[('timeout', '')], n=0))
+            except Exception:
+                os.chdir(cwd0)
+                out.append(dict(base, error=traceback.format_exc()[-900:]))
+        # error clauses (once per tree)
+        bad = []
+        try:
+            for api in ('glob', 'rglob'):
+                try:
+                    list(getattr(PL.Path(t.root), api)('/abs/*'))
+                    bad.append((f'absolute-pattern-to-{api}-does-not-raise-ValueError', ''))
+                except ValueError:
+                    pass
+            try:
+                PL.PureWindowsPath('a').globmatch('a', flags=PL.P)
+                bad.append(('REALPATH-on-foreign-pure-class-does-not-raise-ValueError', ''))
+            except ValueError:
+                pass
+            if PL.PurePosixPath('a').globmatch('A', flags=G.W) or not PL.PureWindowsPath('a').globmatch('A', flags=G.U):
+                bad.append(('platform-rules-not-fixed-by-the-path-class', ''))
+        except Exception:
+            bad.append(('error-clause-crashed', traceback.format_exc()[-300:]))
+        out.append(dict(tree=tname, pattern='<error clauses>', flags=0, fl='', bad=bad, n=1))
+    return out
